@@ -60,7 +60,7 @@ CLAIMS = {
   "note": POOL_NOTE,
   "technique": POOL_TECH},
  "C17": {
-  "text": 'Theorems (Props/C17.v, 25, closed): over every sequence of atomic pool steps: free ++ additional ++ in-use ++ pending-put is a permutation of 0..max-1 (no instance lost or duplicated), at most max in flight, no instance given to two requests, Get enabled iff an instance is free (waiters wait, never fail), release always enabled after Get whatever the rules did, a put makes an instance available, a quiescent pool is full; and, with the locks in the picture (Pool/Progress.v: requests, updates from outside and from inside rules, queries, RWMutex with writer preference, any number of threads, M >= 1 instances): progress in every state, a decreasing weight, hence every schedule serves everyone (waiters included), while the variant whose waiter holds the read lock deadlocks (explicit schedule). Tie: T2 per-run obligation GenWaitOk.v (whoever may wait holds no pool mutex, one acquisition order — proved acyclic for every table that passes, Race/WaitFacts.v —, nothing acquired inside a read section, no mutex leaked at a return) + T3 (release in a deferred function of every wrapper) + scenarios on pools (1,2),(2,3),(3,8) with max held requests, queued waiters, failing and panicking rules, two rounds; conservation and max-simultaneous checks inside Coq.',
+  "text": 'Theorems (Props/C17.v, 26, closed): over every sequence of atomic pool steps: free ++ additional ++ in-use ++ pending-put is a permutation of 0..max-1 (no instance lost or duplicated), at most max in flight, no instance given to two requests, Get enabled iff an instance is free (waiters wait, never fail), release always enabled after Get whatever the rules did, a put makes an instance available, a quiescent pool is full; and, with the locks in the picture (Pool/Progress.v: requests, updates from outside and from inside rules, queries, RWMutex with writer preference, any number of threads, M >= 1 instances): progress in every state, a decreasing weight, hence every schedule serves everyone (waiters included), while the variant whose waiter holds the read lock deadlocks (explicit schedule). Tie: T2 per-run obligation GenWaitOk.v (whoever may wait holds no pool mutex, one acquisition order — proved acyclic for every table that passes, Race/WaitFacts.v —, nothing acquired inside a read section, no mutex leaked at a return) + T3 (release in a deferred function of every wrapper) + scenarios on pools (1,2),(2,3),(3,8) with max held requests, queued waiters, failing and panicking rules, two rounds; conservation and max-simultaneous checks inside Coq.',
   "note": POOL_NOTE,
   "technique": POOL_TECH},
  "C04": {
